@@ -1,24 +1,25 @@
 #!/usr/bin/env python3
 # dev helper: copy confirmed seeds from /tmp/wt/out into /verif/seeded/<id>-<v>/
 import json, os, shutil, sys, subprocess
-out='/tmp/wt/out'; dst='/verif/seeded'
+out=os.environ.get('OUTDIR','/tmp/wt2/out'); dst='/verif/seeded'; rnd=os.environ.get('ROUND','2')
 os.makedirs(dst, exist_ok=True)
 for pid in sorted(os.listdir(out)):
     d=os.path.join(out,pid)
     if not os.path.isdir(d): continue
     try: meta=json.load(open(os.path.join(d,'meta.json')))
     except Exception as e: meta={}
-    for v in ('a','b'):
+    for v in ('a','b','c'):
         log=os.path.join(d,'verify_%s.log'%v)
         if not os.path.exists(log): continue
         txt=open(log).read()
         if 'CONFIRMED %s-%s'%(pid,v) not in txt or 'NOT CONFIRMED' in txt: 
             print('skip',pid,v); continue
-        sd=os.path.join(dst,'%s-%s'%(pid,v)); os.makedirs(sd,exist_ok=True)
+        sid='%s-%s'%(pid,v) if rnd=='1' else '%s-%s%s'%(pid,rnd,v)
+        sd=os.path.join(dst,sid); os.makedirs(sd,exist_ok=True)
         shutil.copy(os.path.join(d,v+'.diff'), os.path.join(sd,'patch.diff'))
         shutil.copy(os.path.join(d,'zz_demo_%s_test.go'%v), os.path.join(sd,'zz_demo_%s_test.go'%v))
         m=meta.get(v,{}) if isinstance(meta.get(v),dict) else {}
-        mj={"id":"%s-%s"%(pid,v),"property":pid,"origin":"independent sub-agent given only the property text and a scratch worktree",
+        mj={"id":sid,"property":pid,"origin":"independent sub-agent given only the property text and a scratch worktree",
             "summary":m.get('summary',''),"needs_to_manifest":m.get('needs_to_manifest',m.get('needs','')),
             "files_touched":m.get('files_touched',[]),
             "confirmed_by":"devtools/verify_seed.sh %s %s: scratch copy of /repo; demo passes without the change; with the change `go build ./...` ok, existing suite passes, demo fails"%(pid,v),
